@@ -114,6 +114,23 @@ def write_structure(calc, filename, cell, info, author=False):
         with open(filename, "w") as f:
             f.write("\n".join(lines) + "\n")
         return
+    if calc == "vasp" and author:
+        # the user's own POSCAR keeps the user's atom order (VASP 5 accepts a species more than once); phonopy's writer would
+        # group the atoms by species, which is exactly what must not be assumed of user input
+        syms = [str(x) for x in cell.symbols]
+        runs = []
+        for x in syms:
+            if runs and runs[-1][0] == x:
+                runs[-1][1] += 1
+            else:
+                runs.append([x, 1])
+        lines = ["authored by the simulator", "   1.0"]
+        lines += ["  %22.16f %22.16f %22.16f" % tuple(v) for v in np.array(cell.cell)]
+        lines += [" ".join(r[0] for r in runs), " ".join(str(r[1]) for r in runs), "Direct"]
+        lines += ["  %20.16f %20.16f %20.16f" % tuple(p) for p in np.array(cell.scaled_positions)]
+        with open(filename, "w") as f:
+            f.write("\n".join(lines) + "\n")
+        return
     write_crystal_structure(filename, cell, interface_mode=calc, optional_structure_info=info)
     fix_structure_file(calc, filename, cell)
 
